@@ -83,6 +83,13 @@ TResult ==
        [] sc.op = "recv_while_send" -> Cur.recv_ok /\ ~Cur.recv_late /\ Cur.send_ok /\ ~Cur.gave_up
        \* C01: nested messages arrive with the same content, both directions, every kind
        [] sc.op = "nested_e2e" -> Cur.same
+       \* C12: the three views of a streaming call's Spec agree (stream type 1 = client, 2 = server, 3 = bidi)
+       [] sc.op = "spec_kinds" ->
+            LET t == CASE sc.used = "client" -> 1 [] sc.used = "server" -> 2 [] OTHER -> 3 IN
+            /\ Cur.ok
+            /\ Cur.cproc = "/verif.v1.K/Method" /\ Cur.hproc = Cur.cproc /\ Cur.uproc = Cur.cproc
+            /\ Cur.cstype = t /\ Cur.hstype = t /\ Cur.ustype = t
+            /\ Cur.cisclient /\ ~Cur.hisclient /\ ~Cur.uisclient
        [] sc.op = "client_init_fail" ->
             /\ Cur.reached = 0 /\ Len(Cur.codes) >= 8
             /\ IF sc.used = "badurl"
